@@ -35,8 +35,8 @@ const (
 	exitHang  = 67 // the child's watchdog fired
 	exitRace  = 66 // GORACE exitcode
 
-	softCalls  = 2000              // per goroutine and case: beyond this the goroutine slows down (the engine never prunes its immutable list)
-	maxCalls   = 8000              // per goroutine and case: hard bound of the work
+	softCalls  = 2000 // per goroutine and case: beyond this the goroutine slows down (the engine never prunes its immutable list)
+	maxCalls   = 8000 // per goroutine and case: hard bound of the work
 	auxKeys    = 40
 	auxReaders = 3
 	sleepCapUs = 1_500_000 // total time the yield plan may sleep in one case
@@ -176,9 +176,9 @@ type worker struct {
 }
 
 type env struct {
-	c    *Case
-	eng  *engine.EngineFacade
-	cm   interfaces.CompactionManager
+	c   *Case
+	eng *engine.EngineFacade
+	cm  interfaces.CompactionManager
 	// aux components
 	auxR    []*sstable.Reader
 	auxCo   *compaction.DefaultCompactionCoordinator
@@ -437,8 +437,66 @@ type txLike interface {
 	Rollback() error
 }
 
+// sharedHelper runs the body's operations in reverse order on the same
+// transaction object from a second goroutine (no worker bookkeeping: the
+// worker's counters belong to its own goroutine).
+func sharedHelper(e *env, s *Step, tx txLike, done chan<- struct{}) {
+	defer close(done)
+	keys := e.c.Keys
+	var sink byte
+	eat := func(b []byte) {
+		for _, c := range b {
+			sink ^= c
+		}
+	}
+	scan := func(it iterator.Iterator, seek, n int) {
+		if it == nil {
+			return
+		}
+		if seek >= 0 && seek < len(keys) {
+			it.Seek(keys[seek])
+		} else {
+			it.SeekToFirst()
+		}
+		for i := 0; i < n && it.Valid(); i++ {
+			eat(it.Key())
+			if !it.IsTombstone() {
+				eat(it.Value())
+			}
+			it.Next()
+		}
+	}
+	for i := len(s.Body) - 1; i >= 0; i-- {
+		o := &s.Body[i]
+		k := keys[0]
+		if o.K >= 0 && o.K < len(keys) {
+			k = keys[o.K]
+		}
+		switch o.Op {
+		case "get":
+			v, _ := tx.Get(k)
+			eat(v)
+		case "put":
+			_ = tx.Put(k, o.V.Bytes())
+		case "del":
+			_ = tx.Delete(k)
+		case "iter":
+			scan(tx.NewIterator(), o.Seek, o.N)
+		case "riter":
+			lo, hi := bounds(keys, o.A, o.B)
+			scan(tx.NewRangeIterator(lo, hi), o.Seek, o.N)
+		}
+	}
+	_ = sink
+}
+
 func (w *worker) txBody(e *env, s *Step, tx txLike) {
 	keys := e.c.Keys
+	var helperDone chan struct{}
+	if s.Shared && len(s.Body) > 0 {
+		helperDone = make(chan struct{})
+		go sharedHelper(e, s, tx, helperDone)
+	}
 	for i := range s.Body {
 		o := &s.Body[i]
 		k := keys[0]
@@ -463,6 +521,10 @@ func (w *worker) txBody(e *env, s *Step, tx txLike) {
 			w.call("tx.riter", func() error { it = tx.NewRangeIterator(lo, hi); return nil })
 			w.scan("tx.riter", it, keys, o.Seek, o.N)
 		}
+	}
+	if helperDone != nil {
+		// the second goroutine is joined before the transaction is finished
+		w.call("tx.shared.join", func() error { <-helperDone; return nil })
 	}
 	if s.Commit {
 		w.call("tx.commit", func() error { return tx.Commit() })
